@@ -399,6 +399,10 @@ where
 
     #[inline(always)]
     fn prepare_allocation(&self, layout: Layout) -> Result<Range<NonNull<u8>>, AllocError> {
+        // Both ends of the returned range are aligned and a new chunk is only sized for one-sided padding,
+        // this only works out when the size is a multiple of the alignment.
+        let layout = layout.pad_to_align();
+
         #[cold]
         #[inline(never)]
         unsafe fn prepare_allocation_in_another_chunk<A, S>(
@@ -423,6 +427,9 @@ where
 
     #[inline(always)]
     unsafe fn allocate_prepared(&self, layout: Layout, range: Range<NonNull<u8>>) -> NonNull<u8> {
+        // see `prepare_allocation`
+        let layout = layout.pad_to_align();
+
         debug_assert_eq!(range.start.addr().get() % layout.align(), 0);
         debug_assert_eq!(range.end.addr().get() % layout.align(), 0);
         debug_assert_eq!(layout.size() % layout.align(), 0);
@@ -454,6 +461,9 @@ where
 
     #[inline(always)]
     unsafe fn allocate_prepared_rev(&self, layout: Layout, range: Range<NonNull<u8>>) -> NonNull<u8> {
+        // see `prepare_allocation`
+        let layout = layout.pad_to_align();
+
         debug_assert_eq!(range.start.addr().get() % layout.align(), 0);
         debug_assert_eq!(range.end.addr().get() % layout.align(), 0);
         debug_assert_eq!(layout.size() % layout.align(), 0);
